@@ -123,7 +123,90 @@ def mutants(args):
     return 2 if missed else 0
 
 
+def _real_pool_eval(spec, inp):
+    """Own image: the evaluation with the *real* multiprocessing.Pool (real worker processes)."""
+    import sys as _sys
+
+    from . import histsim, model
+    from .install import MODS
+
+    histsim._silence()
+    import multiprocessing
+    import multiprocessing.context
+
+    # real worker processes need the real synchronisation primitives again
+    multiprocessing.Lock = MODS["real_mp_lock"]
+    multiprocessing.context.BaseContext.Lock = MODS["real_ctx_lock"]
+    multiprocessing.Pool = MODS["real_pool"]
+    for name, mod in list(_sys.modules.items()):
+        if mod is not None and (name == "panoptica" or name.startswith("panoptica.")):
+            for attr, val in list(vars(mod).items()):
+                if val is __import__("sim.seams", fromlist=["SimPool"]).SimPool:
+                    setattr(mod, attr, MODS["real_pool"])
+    ev = model.build_evaluator(spec)
+    pred, ref = model.build_arrays(inp)
+    try:
+        res = ev.evaluate(pred, ref)
+    except Exception as e:  # noqa: BLE001
+        return {"invalid": f"{type(e).__name__}: {str(e)[:200]}"}
+    import panoptica._functionals as _fn
+
+    if _fn.Pool is not MODS["real_pool"]:
+        raise RuntimeError("real Pool was not put back")
+    return {"result": histsim.result_canon(res)}
+
+
+def poolfidelity(args):
+    """Assumption check on the worker-pool stub: the same evaluations with real worker processes,
+    with SimPool (seeded completion order, pickle boundary) and serially must agree bit for bit.
+    Real processes are not under the scheduler's control, so a mismatch is a harness error."""
+    import random
+
+    from . import gen, histsim, install, runner
+    from .seams import WORLD
+
+    install.install()
+    n = args.runs or 40
+    t0 = time.time()
+    base = runner.scratch_dir("poolfid")
+    bad, done, invalid = [], 0, 0
+
+    def sim_eval(spec, inp, seed):
+        histsim._silence()
+        WORLD.pool_mode = "sim"
+        WORLD.pool_rng = random.Random(seed)
+        WORLD.pool_workers = 3
+        from . import model
+
+        ev = model.build_evaluator(spec)
+        pred, ref = model.build_arrays(inp)
+        return {"result": histsim.result_canon(ev.evaluate(pred, ref))}
+
+    for i in range(n):
+        rng = random.Random(runner.run_seed(args.seed, "poolfid", i))
+        spec = gen.gen_spec(rng, plain_groups=True, max_groups=2, cheap=True, allow_times=False)
+        inp = gen.gen_input(rng, spec, max_side=8, max_inst=4)
+        st, serial = runner.child_call(histsim.ref_eval, (spec, inp), timeout=120)
+        if st != "ok" or "invalid" in serial:
+            invalid += 1
+            continue
+        st2, real = runner.child_call(_real_pool_eval, (spec, inp), timeout=300)
+        st3, sim = runner.child_call(sim_eval, (spec, inp, i), timeout=120)
+        done += 1
+        if st2 != "ok" or st3 != "ok" or real != serial or sim != serial:
+            bad.append({"case": i, "real_ok": st2 == "ok" and real == serial, "sim_ok": st3 == "ok" and sim == serial, "detail": str(real)[:200] if st2 != "ok" else ""})
+        if (i + 1) % 10 == 0:
+            log(f"  pool fidelity: {i + 1}/{n} cases, {len(bad)} mismatches")
+    shutil.rmtree(base, ignore_errors=True)
+    with open(os.path.join(VERIF, "evidence", "selftest-poolfidelity.json"), "w") as f:
+        json.dump({"seed": args.seed, "cases": done, "invalid_generated": invalid, "mismatches": bad, "wall_s": round(time.time() - t0, 1)}, f, indent=1)
+    log(f"selftest-poolfidelity: {done} cases with real worker processes vs SimPool vs serial, {len(bad)} mismatches, {time.time() - t0:.0f}s")
+    return 2 if bad else 0
+
+
 def main(args):
+    if args.prop == "selftest-poolfidelity":
+        return poolfidelity(args)
     if args.prop == "selftest-determinism":
         return determinism(args)
     if args.prop == "selftest-mutants":
